@@ -180,8 +180,19 @@ func (e *Executor) SetParserTokenLimit(limit int) {
 	e.parserTokenLimit = limit
 }
 
+// SetDisableSuggestion(true) swaps gqlparser's FieldsOnCorrectType rule for the one that does
+// not provide suggestions. The rule set of gqlparser is global and not safe for concurrent
+// changes, so the swap is made here, while the server is being configured, and not while
+// requests are being validated.
 func (e *Executor) SetDisableSuggestion(value bool) {
 	e.disableSuggestion = value
+	if value {
+		validator.RemoveRule("FieldsOnCorrectType")
+
+		rule := rules.FieldsOnCorrectTypeRuleWithoutSuggestions
+		// rule may already have been added
+		validator.ReplaceRule(rule.Name, rule.RuleFunc)
+	}
 }
 
 // parseQuery decodes the incoming query and validates it, pulling from cache if present.
@@ -221,15 +232,6 @@ func (e *Executor) parseQuery(
 		gqlErr, _ := err.(*gqlerror.Error)
 		errcode.Set(err, errcode.ValidationFailed)
 		return nil, gqlerror.List{gqlErr}
-	}
-
-	// swap out the FieldsOnCorrectType rule with one that doesn't provide suggestions
-	if e.disableSuggestion {
-		validator.RemoveRule("FieldsOnCorrectType")
-
-		rule := rules.FieldsOnCorrectTypeRuleWithoutSuggestions
-		// rule may already have been added
-		validator.ReplaceRule(rule.Name, rule.RuleFunc)
 	}
 
 	listErr := validator.Validate(e.es.Schema(), doc)
